@@ -3443,3 +3443,362 @@ func ruleTanRemoveAllFirst(e *Engine, r *Report) {
 		}
 	}
 }
+
+// ruleReadIndexRespIndex (C01, C06): the index sent back to a replica that
+// forwarded a ReadIndex request is the confirmed read index itself, not a
+// value capped by what the requester is known to have.
+func ruleReadIndexRespIndex(e *Engine, r *Report) {
+	typF := r.needField("raftpb", "Message", "Type")
+	liF := r.needField("raftpb", "Message", "LogIndex")
+	rir := r.needConst("raftpb", "ReadIndexResp")
+	idxF := r.needField("internal/raft", "readStatus", "index")
+	if typF == nil || liF == nil || rir == nil || idxF == nil {
+		return
+	}
+	n := 0
+	raftPkg := e.pkgTypes("internal/raft")
+	for _, fn := range e.ScopeFuncs() {
+		if fnPkg(fn) != raftPkg || !e.IsLive(fn) {
+			continue
+		}
+		// message literals whose Type is ReadIndexResp, built by the leader from a readStatus
+		forEachInstr(fn, func(in ssa.Instruction) {
+			st, ok := in.(*ssa.Store)
+			if !ok {
+				return
+			}
+			f, base, ok := fieldOfAddr(st.Addr)
+			if !ok || f != typF || !constV(rir)(st.Val) {
+				return
+			}
+			// the LogIndex store into the same literal
+			forEachInstr(fn, func(in2 ssa.Instruction) {
+				st2, ok := in2.(*ssa.Store)
+				if !ok {
+					return
+				}
+				f2, base2, ok := fieldOfAddr(st2.Addr)
+				if !ok || f2 != liF || base2 != base {
+					return
+				}
+				// only the sites that answer from a readStatus (the confirmation path)
+				if !e.dependsOn(st2.Val, func(v ssa.Value) bool { return fieldV(idxF)(v) }, 1) {
+					return
+				}
+				n++
+				r.check(fieldV(idxF)(stripConv(st2.Val)), "DEP-readindexresp-index", "ReadIndexResp.LogIndex in "+fname(fn)+" is the confirmed read index", e.ipos(in2),
+					"the requester waits for exactly the index the leader recorded", "the index reported to the forwarding replica is computed from the confirmed read index instead of being it (e.g. capped by the requester's match): the requester may serve the read before it has applied an acknowledged write")
+			})
+		})
+	}
+	r.floor("DEP-readindexresp-index", n, 1)
+}
+
+// ruleHeartbeatMatchArg (C02): the commit index a heartbeat carries to a
+// member is capped by that member's match: every caller of
+// sendHeartbeatMessage passes the match of the remote it iterates over.
+func ruleHeartbeatMatchArg(e *Engine, r *Report) {
+	sendHB := r.need(raftT + "sendHeartbeatMessage")
+	matchF := r.needField("internal/raft", "remote", "match")
+	commitF := r.needField("raftpb", "Message", "Commit")
+	committed := r.needField("internal/raft", "entryLog", "committed")
+	if sendHB == nil || matchF == nil || commitF == nil || committed == nil {
+		return
+	}
+	// which parameter is the match: the one that flows into Message.Commit through min(...)
+	matchIdx := -1
+	forEachInstr(sendHB, func(in ssa.Instruction) {
+		st, ok := in.(*ssa.Store)
+		if !ok {
+			return
+		}
+		if f, _, ok := fieldOfAddr(st.Addr); ok && f == commitF {
+			for pi, p := range sendHB.Params {
+				if bt, ok := p.Type().Underlying().(*types.Basic); ok && bt.Kind() == types.Uint64 {
+					if e.dependsOn(st.Val, func(v ssa.Value) bool { return v == ssa.Value(p) }, 0) && p.Name() != "to" {
+						matchIdx = pi
+					}
+				}
+			}
+			// and the value is capped by the local commit index
+			r.check(e.dependsOn(st.Val, func(v ssa.Value) bool { return fieldV(committed)(v) }, 1), "DEP-heartbeat-commit", "Heartbeat.Commit in sendHeartbeatMessage depends on the local commit index", e.ipos(in), "min(match, committed)", "the heartbeat commit no longer depends on the leader's commit index")
+		}
+	})
+	if matchIdx < 0 {
+		r.undecided("DEP-heartbeat-commit", fname(sendHB), "the parameter that caps Message.Commit was not found")
+		return
+	}
+	n := 0
+	for _, s := range e.CallerSites(sendHB) {
+		args := s.Common().Args
+		if matchIdx >= len(args) || !e.IsLive(s.Parent()) {
+			continue
+		}
+		n++
+		r.check(fieldV(matchF)(stripConv(args[matchIdx])), "DEP-heartbeat-commit", "sendHeartbeatMessage in "+fname(s.Parent())+" #"+itoa(n)+" is given the target's match", e.ipos(s),
+			"the commit index sent never exceeds what the target is known to hold", "a heartbeat's commit index is not capped by the target's match ("+e.describeValue(args[matchIdx])+"): a member with a stale uncommitted tail commits and applies entries the leader never replicated to it")
+	}
+	r.floor("DEP-heartbeat-commit", n, 2)
+}
+
+// ruleRestoreFastForward (C02): an InstallSnapshot is skipped (only the
+// commit index moves) exactly when the local log holds the snapshot's last
+// entry - same index and same term - decided by matchTerm.
+func ruleRestoreFastForward(e *Engine, r *Report) {
+	restore := r.need(raftT + "restore")
+	mt := r.need("(*internal/raft.entryLog).matchTerm")
+	logRestore := r.need("(*internal/raft.entryLog).restore")
+	if restore == nil || mt == nil || logRestore == nil {
+		return
+	}
+	var isMatch VM = func(v ssa.Value) bool {
+		ex, ok := v.(*ssa.Extract)
+		if !ok || ex.Index != 0 {
+			return false
+		}
+		c, ok := ex.Tuple.(*ssa.Call)
+		return ok && e.CallsTo(c, mt)
+	}
+	n := 0
+	forEachInstr(restore, func(in ssa.Instruction) {
+		ret, ok := in.(*ssa.Return)
+		if !ok || len(ret.Results) < 2 || !isNilConst(retOperand(ret, 1)) {
+			return
+		}
+		cb, isC := isConstBool(retOperand(ret, 0))
+		if !isC || cb {
+			return
+		}
+		// a "not restored, no error" exit: either the snapshot is not newer than the commit
+		// index (first guard of restore), or the log matches the snapshot's last entry
+		committed := e.Field("internal/raft", "entryLog", "committed")
+		n++
+		r.guard("GD-restore-fastforward", "restore skipped in "+fname(restore)+" #"+itoa(n), in,
+			reqAny("matchTerm(ss.Index, ss.Term) is true, or ss.Index <= committed",
+				reqBool("", isMatch, true),
+				reqCmp("", "<=", anyV(), fieldV(committed))))
+	})
+	r.floor("GD-restore-fastforward", n, 2)
+	// and the log is replaced only when it does not match
+	for _, s := range e.SitesIn(restore, logRestore) {
+		r.guard("GD-restore-fastforward", "entryLog.restore in "+fname(restore), s.(ssa.Instruction), reqBool("matchTerm is false", isMatch, false))
+	}
+}
+
+// ruleHeartbeatRespProducer (C06, C18): a HeartbeatResp - the message the
+// leader counts as a read confirmation when it carries a hint - is built only
+// in reply to a Heartbeat: only the Heartbeat cells of the handler table
+// reach a function that builds one.
+func ruleHeartbeatRespProducer(e *Engine, r *Report) {
+	typF := r.needField("raftpb", "Message", "Type")
+	hbr := r.needConst("raftpb", "HeartbeatResp")
+	tbl, err := e.RaftHandlerTable()
+	if typF == nil || hbr == nil || err != nil {
+		return
+	}
+	n := 0
+	raftPkg := e.pkgTypes("internal/raft")
+	for _, fn := range e.ScopeFuncs() {
+		if fnPkg(fn) != raftPkg || !e.IsLive(fn) {
+			continue
+		}
+		forEachInstr(fn, func(in ssa.Instruction) {
+			st, ok := in.(*ssa.Store)
+			if !ok {
+				return
+			}
+			f, _, ok := fieldOfAddr(st.Addr)
+			if !ok || f != typF || !constV(hbr)(st.Val) {
+				return
+			}
+			n++
+			bad := ""
+			for _, c := range e.CellsReaching(tbl, fn) {
+				if c.Type != "Heartbeat" {
+					bad += " " + c.State + "/" + c.Type
+				}
+			}
+			r.check(bad == "", "WMC-heartbeatresp-producer", "HeartbeatResp built in "+fname(fn), e.ipos(in),
+				"only in reply to a Heartbeat", "a HeartbeatResp (counted by the leader as a leadership confirmation when it carries a hint) is produced outside the Heartbeat handlers (reachable from"+bad+"): a replica the leader never asked, possibly a non-voting one, is counted towards the read quorum")
+		})
+	}
+	r.floor("WMC-heartbeatresp-producer", n, 1)
+}
+
+// ruleConfigChangeNeverSkipped (C07): the "already in the on-disk state
+// machine" test that turns an entry into a no-op is applied to user entries
+// only: a membership change is applied to the membership whatever the
+// on-disk index says (membership lives in the snapshot metadata, not in the
+// user state machine).
+func ruleConfigChangeNeverSkipped(e *Engine, r *Report) {
+	he := r.need("(*internal/rsm.StateMachine).handleEntry")
+	inInit := r.need("(*internal/rsm.StateMachine).entryInInitDiskSM")
+	isCC := r.need("(*raftpb.Entry).IsConfigChange")
+	if he == nil || inInit == nil || isCC == nil {
+		return
+	}
+	n := 0
+	e.forEachInstrRegion(he, 1, func(in ssa.Instruction) {
+		ifi, ok := in.(*ssa.If)
+		if !ok {
+			return
+		}
+		hit := false
+		for _, f := range expandFacts([]Fact{{ifi.Cond, true}}) {
+			if e.callV(inInit)(f.V) {
+				hit = true
+			}
+		}
+		if !hit {
+			return
+		}
+		n++
+		r.guard("GD-cc-never-skipped", "on-disk-index skip test in "+fname(in.Parent())+" #"+itoa(n), in,
+			reqBool("the entry is not a config change", e.callV(isCC), false))
+	})
+	r.floor("GD-cc-never-skipped", n, 1)
+}
+
+// ruleSnapshotJobExclusion (C08, C11): the snapshot worker pool never runs a
+// recover job of a shard while another snapshot job of that shard (save,
+// recover or stream) is in progress, never a save while any other is, and a
+// stream never together with a save or a recover.
+func ruleSnapshotJobExclusion(e *Engine, r *Report) {
+	wp := "(*dragonboat.workerPool)."
+	absent := func(fld string) Req {
+		f := r.needField("dragonboat", "workerPool", fld)
+		return reqBool("no "+fld+" job of the shard", func(v ssa.Value) bool {
+			ex, ok := v.(*ssa.Extract)
+			if !ok || ex.Index != 1 {
+				return false
+			}
+			lk, ok := ex.Tuple.(*ssa.Lookup)
+			return ok && lk.CommaOk && f != nil && fieldV(f)(lk.X)
+		}, false)
+	}
+	for _, c := range []struct {
+		fn   string
+		maps []string
+	}{
+		{"canRecover", []string{"saving", "recovering", "streaming"}},
+		{"canSave", []string{"saving", "recovering", "streaming"}},
+		{"canStream", []string{"saving", "recovering"}},
+	} {
+		fn := r.need(wp + c.fn)
+		if fn == nil {
+			continue
+		}
+		var reqs []Req
+		for _, m := range c.maps {
+			reqs = append(reqs, absent(m))
+		}
+		r.returnsOnlyUnder("GD-snapshot-job-exclusion", fname(fn)+" answers true", fn, 0, true, nil, reqs...)
+	}
+}
+
+// rulePointReadClamped (C09): the single-entry fast path of the plain
+// format's iterate is taken only for an index inside the logical log
+// (low <= maxIndex), like the ranged path, which clamps its upper bound.
+func rulePointReadClamped(e *Engine, r *Report) {
+	it := r.need("(*internal/logdb.plainEntries).iterate")
+	ge := r.need("(*internal/logdb.plainEntries).getEntry")
+	if it == nil || ge == nil {
+		return
+	}
+	var maxP *ssa.Parameter
+	for _, p := range it.Params {
+		if p.Name() == "maxIndex" {
+			maxP = p
+		}
+	}
+	if maxP == nil {
+		// identified by role: the parameter the ranged path clamps `high` with
+		forEachInstr(it, func(in ssa.Instruction) {
+			b, ok := in.(*ssa.BinOp)
+			if !ok || b.Op != token.GTR {
+				return
+			}
+			if add, ok := b.Y.(*ssa.BinOp); ok && add.Op == token.ADD {
+				if p, ok := add.X.(*ssa.Parameter); ok {
+					maxP = p
+				}
+			}
+		})
+	}
+	if maxP == nil {
+		r.undecided("GD-point-read-clamped", fname(it), "max index parameter not found")
+		return
+	}
+	n := 0
+	for _, s := range e.SitesIn(it, ge) {
+		n++
+		r.guard("GD-point-read-clamped", "point read in "+fname(it)+" #"+itoa(n), s.(ssa.Instruction),
+			reqCmp("index <= maxIndex", "<=", anyV(), func(v ssa.Value) bool { return v == ssa.Value(maxP) }))
+	}
+	r.floor("GD-point-read-clamped", n, 1)
+}
+
+// ruleTanSyncSameDB (C10, C04): when a Tan LogDB method writes through one
+// db handle per update and syncs after the loop through a handle chosen
+// earlier, all updates must provably go to the same db (the loop fail-stops
+// when the collection key changes); otherwise every written db is synced.
+func ruleTanSyncSameDB(e *Engine, r *Report) {
+	write := r.need("(*internal/tan.db).write")
+	dbSync := r.need("(*internal/tan.db).sync")
+	key := r.need("(*internal/tan.collection).key")
+	if write == nil || dbSync == nil || key == nil {
+		return
+	}
+	n := 0
+	for _, fn := range e.ScopeFuncs() {
+		if fnPkg(fn) != e.pkgTypes("internal/tan") || !e.IsLive(fn) || fn.Signature.Recv() == nil || !strings.HasSuffix(fn.Signature.Recv().Type().String(), "tan.LogDB") {
+			continue
+		}
+		ws := e.SitesIn(fn, write)
+		ss := e.SitesIn(fn, dbSync)
+		if len(ws) == 0 || len(ss) == 0 {
+			continue
+		}
+		for _, w := range ws {
+			wrecv := w.Common().Args[0]
+			for _, s := range ss {
+				srecv := s.Common().Args[0]
+				if srecv == wrecv {
+					continue
+				}
+				n++
+				// a different handle value: the loop must assert a single collection key
+				asserted := false
+				forEachInstr(fn, func(in ssa.Instruction) {
+					ifi, ok := in.(*ssa.If)
+					if !ok {
+						return
+					}
+					b, ok := ifi.Cond.(*ssa.BinOp)
+					if !ok || (b.Op != token.NEQ && b.Op != token.EQL) {
+						return
+					}
+					dep := func(v ssa.Value) bool { return e.dependsOn(v, e.callV(key), 0) }
+					if !dep(b.X) || !dep(b.Y) {
+						return
+					}
+					bad := ifi.Block().Succs[0]
+					if b.Op == token.EQL {
+						bad = ifi.Block().Succs[1]
+					}
+					for _, x := range bad.Instrs {
+						if _, isP := x.(*ssa.Panic); isP {
+							asserted = true
+						}
+						if c, ok := x.(*ssa.Call); ok && e.NoReturnCall(c) {
+							asserted = true
+						}
+					}
+				})
+				r.check(asserted, "PAIR-tan-sync-same-db", "db.sync in "+fname(fn)+" through a handle other than the written one", e.ipos(s),
+					"all updates of the call share one db (asserted by a fail-stop on a changing collection key)", "the method writes through per-update db handles but syncs only one handle chosen in the loop, without asserting that all updates go to the same db: records written to the other dbs are acknowledged without fsync")
+			}
+		}
+	}
+	_ = n
+}
